@@ -1106,6 +1106,106 @@ func c06probes(c *core.Ctx) {
 			return ""
 		}, "comment-glued-to-unquoted"},
 	}
+	// the when of a uses / augment and the own when of the nodes it brings in: every node reads back its own chain
+	whenChain := func(d meta.Definition) string {
+		var out []string
+		if hw, ok := d.(meta.HasWhen); ok {
+			for w := hw.When(); w != nil; w = w.And() {
+				out = append(out, w.Expression())
+			}
+		}
+		return strings.Join(out, " && ")
+	}
+	probes = append(probes, probe{"when on a uses and on the nodes of its grouping", hdr +
+		"  grouping gw { leaf ga { when \"../p = 'a'\"; type string; } leaf gb { type string; } leaf gc { when \"../p = 'c'\"; type string; } container gd { when \"x\"; leaf x { type string; } } }\n" +
+		"  container c1 { leaf p { type string; } uses gw { when \"p = 'u'\"; } }\n  container c2 { leaf p { type string; } uses gw; }\n" +
+		"  container c3 { leaf p { type string; } }\n  augment \"/m:c3\" { when \"p = 'g'\"; leaf aa { when \"../p = 'x'\"; type string; } leaf ab { type string; } leaf ac { when \"../p = 'z'\"; type string; } }\n}",
+		func(m *meta.Module, err error) string {
+			if err != nil {
+				return "load fails: " + err.Error()
+			}
+			want := map[string]string{"c1/ga": "p = 'u' && ../p = 'a'", "c1/gb": "p = 'u'", "c1/gc": "p = 'u' && ../p = 'c'", "c1/gd": "p = 'u' && x",
+				"c2/ga": "../p = 'a'", "c2/gb": "", "c2/gc": "../p = 'c'", "c2/gd": "x",
+				"c3/aa": "p = 'g' && ../p = 'x'", "c3/ab": "p = 'g'", "c3/ac": "p = 'g' && ../p = 'z'"}
+			var bad []string
+			for path, w := range want {
+				d := meta.Find(m, path)
+				if d == nil {
+					bad = append(bad, path+" missing")
+				} else if got := whenChain(d); got != w {
+					bad = append(bad, fmt.Sprintf("%s reads when %q, written %q", path, got, w))
+				}
+			}
+			sort.Strings(bad)
+			return strings.Join(bad, "; ")
+		}, ""})
+	// an extension below each secondary statement is attached to that statement's keyword
+	{
+		carriers := []struct{ in, kw string }{
+			{"leaf a { type string; must \"1\" { error-message \"m\" { m:e \"x1\"; } error-app-tag \"t\" { m:e \"x2\"; } } }", "must-sub"},
+			{"leaf a { type string { length \"1..5\" { error-message \"m\" { m:e \"x1\"; } error-app-tag \"t\" { m:e \"x2\"; } } pattern \"a.*\" { error-message \"m\" { m:e \"x5\"; } error-app-tag \"t\" { m:e \"x6\"; } } } }", "type-sub"},
+			{"leaf a { type int32 { range \"1..5\" { error-app-tag \"t\" { m:e \"x2\"; } error-message \"m\" { m:e \"x1\"; } } } }", "range-sub"},
+		}
+		for _, cr := range carriers {
+			cr := cr
+			probes = append(probes, probe{"extension below error-message / error-app-tag / description of " + cr.kw, hdr + "  extension e { argument v; }\n  " + cr.in + "\n}", func(m *meta.Module, err error) string {
+				if err != nil {
+					return "load fails: " + err.Error()
+				}
+				wantKw := map[string]string{"x1": "error-message", "x2": "error-app-tag", "x3": "description", "x4": "reference", "x5": "error-message", "x6": "error-app-tag"}
+				seen := map[string]string{}
+				var walk func(x interface{})
+				visit := func(es []*meta.Extension) {
+					for _, e := range es {
+						if e.Ident() == "e" {
+							if old, dup := seen[e.Argument()]; dup && old != e.Keyword() {
+								seen[e.Argument()] = old + "|" + e.Keyword()
+							} else {
+								seen[e.Argument()] = e.Keyword()
+							}
+						}
+					}
+				}
+				walk = func(x interface{}) {
+					if h, ok := x.(interface{ Extensions() []*meta.Extension }); ok {
+						visit(h.Extensions())
+					}
+				}
+				lf := m.DataDefinitions()[0].(*meta.Leaf)
+				walk(lf)
+				for _, mu := range lf.Musts() {
+					walk(mu)
+				}
+				walk(lf.Type())
+				for _, r := range lf.Type().Range() {
+					walk(r)
+				}
+				for _, r := range lf.Type().Length() {
+					walk(r)
+				}
+				for _, r := range lf.Type().Patterns() {
+					walk(r)
+				}
+				var bad []string
+				for arg, kw := range seen {
+					if wantKw[arg] != kw {
+						bad = append(bad, fmt.Sprintf("extension m:e %q written below %s reads back below %q", arg, wantKw[arg], kw))
+					}
+				}
+				if len(seen) == 0 {
+					bad = append(bad, "no extension of the statement's substatements can be read back")
+				}
+				sort.Strings(bad)
+				return strings.Join(bad, "; ")
+			}, ""})
+		}
+	}
+	probes = append(probes, probe{"extension below the description / reference of a must", hdr + "  extension e { argument v; }\n  leaf a { type string; must \"1\" { description \"d\" { m:e \"x3\"; } reference \"r\" { m:e \"x4\"; } } }\n}", func(m *meta.Module, err error) string {
+		if err != nil {
+			return "legal YANG (an extension may stand below any statement, RFC 7950 §6.3.1) does not load: " + err.Error()
+		}
+		return ""
+	}, "extension-below-must-description"})
 	for _, body := range []string{"leaf a { type string; config \"false\"; }", "leaf a { type string; mandatory 'true'; }", "leaf a { type string; status \"current\"; }",
 		"leaf-list a { type string; ordered-by \"user\"; }", "leaf-list a { type string; max-elements \"unbounded\"; }", "leaf a { type \"string\"; }", "leaf \"a\" { type string; }", "container 'a' { }"} {
 		body := body
